@@ -801,7 +801,7 @@ func (vm *vm) handleThrow(arg interface{}) *Exception {
 	ex := vm.exceptionFromValue(arg)
 	for len(vm.tryStack) > 0 {
 		tf := &vm.tryStack[len(vm.tryStack)-1]
-		if tf.catchPos == -1 && tf.finallyPos == -1 || ex == nil && tf.catchPos != tryPanicMarker {
+		if tf.catchPos == -1 && tf.finallyPos == -1 || ex == nil && (tf.catchPos != tryPanicMarker || tf.finallyRet == -2) {
 			tf.exception = nil
 			vm.popTryFrame()
 			continue
